@@ -220,11 +220,43 @@ def unit_dataset(item):
         p.violation(sig(env_name, cfg, f"crash:{type(e).__name__}", "dataset_file"), rec, f"{name}: generate_dataset -> env.dataset failed: {type(e).__name__}: {str(e)[:120]}")
     finally:
         shutil.rmtree(d, ignore_errors=True)
+    if problem == "vrp" and size >= 2:
+        # the documented file format stores one capacity PER INSTANCE: a file whose rows have different capacities
+        d2 = tempfile.mkdtemp(prefix="c19_", dir=_scratch())
+        try:
+            np.random.seed(99 + seed)
+            raw2 = generate_env_data("vrp", size, n)
+            raw2["capacity"] = (raw2["capacity"] * np.array([1.0 + 0.75 * i for i in range(size)], dtype=np.float32)).astype(np.float32)
+            np.savez(os.path.join(d2, "mixed.npz"), **raw2)
+            td2 = spec.cls.load_data(os.path.join(d2, "mixed.npz"))
+            want = torch.from_numpy(raw2["demand"]) / torch.from_numpy(raw2["capacity"])[:, None]
+            p.add(states=1, evaluations=size)
+            p.case(f"{cfg}|mixed_capacity")
+            if not torch.allclose(td2["demand"].float(), want.float(), atol=1e-7):
+                p.violation(sig(env_name, cfg, "values", "per_instance_capacity"), dict(rec, mixed_capacity=True), f"{name}: a dataset file with per-instance capacities {raw2['capacity'].tolist()} is loaded with demands that are not demand_i / capacity_i")
+        finally:
+            shutil.rmtree(d2, ignore_errors=True)
     p.sample(dict(part="generated_dataset", problem=name, graph_size=n, dataset_size=size), cap=1)
     return p
 
 
 # ------------------------------------------------------------------------------------------- (c) text files
+
+
+def write_jssp_files(where, insts):
+    """JSSP text format as documented in jssp/parser.py (the library ships a reader but no writer):
+    first line `<jobs> <machines>`, then one line per job of `<machine (1-based)> <duration>` pairs."""
+    for k, inst in enumerate(insts):
+        J, M = len(inst["start_op_per_job"]), len(inst["proc_times"])
+        lines = [f"{J} {M}"]
+        for s_, e_ in zip(inst["start_op_per_job"], inst["end_op_per_job"]):
+            pairs = []
+            for op in range(int(s_), int(e_) + 1):
+                m = next(m for m in range(M) if inst["proc_times"][m][op] > 0)
+                pairs += [str(m + 1), str(int(inst["proc_times"][m][op]))]
+            lines.append(" ".join(pairs))
+        with open(os.path.join(where, f"{str(k + 1).rjust(4, '0')}_{J}j_{M}m.txt"), "w") as fh:
+            fh.write("\n".join(lines))
 
 
 def unit_parser(item):
@@ -247,10 +279,10 @@ def unit_parser(item):
             env = spec.env(inst)
             td0 = spec.td(inst)
             tdr = env.reset(td0.clone())
-            if not hasattr(parser, "write"):
-                p.note(f"{skey}: parser module has no write(); text round trip not available")
-                break
-            parser.write(d, tdr)
+            if hasattr(parser, "write"):
+                parser.write(d, tdr)
+            else:
+                write_jssp_files(d, [inst])
             n_ops = len(inst["pad_mask"])
             g = FileGen(d, n_ops_max=n_ops) if not spec.jssp else FileGen(d)
             td1 = g(1)
@@ -276,6 +308,47 @@ def unit_parser(item):
                 bisimulate(spec, env, td0, env_b, td1, p, "text_roundtrip", rec, max_leaves=100)
         except Exception as e:  # noqa: BLE001
             p.violation(sig(env_name, skey.partition(":")[2], f"crash:{type(e).__name__}", "text_roundtrip"), rec, f"{skey} {iid}: write/read round trip failed: {type(e).__name__}: {str(e)[:120]}")
+        finally:
+            shutil.rmtree(d, ignore_errors=True)
+    # several instances with DIFFERENT operation counts in one directory: the file generator pads them to a common size
+    by_jobs = {}
+    for iid, inst in spec.instances("quick", seed):
+        by_jobs.setdefault((len(inst["start_op_per_job"]), len(inst["proc_times"])), []).append((iid, inst))
+    for (J, M), group in by_jobs.items():
+        reals = {}
+        for iid, inst in group:
+            reals.setdefault(sum(1 for x in inst["pad_mask"] if not x), (iid, inst))
+        if len(reals) < 2:
+            continue
+        chosen = [reals[k] for k in sorted(reals)][:3]
+        d = tempfile.mkdtemp(prefix="c19_", dir=_scratch())
+        rec = dict(kind="parser_dir", spec=skey, instance_ids=[c[0] for c in chosen])
+        try:
+            env = spec.env(chosen[0][1])
+            tds = torch.cat([spec.td(c[1]) for c in chosen], 0)
+            if hasattr(parser, "write"):
+                parser.write(d, env.reset(tds.clone()))
+            else:
+                write_jssp_files(d, [c[1] for c in chosen])
+            g = FileGen(d)
+            td1 = g(len(chosen))
+            p.add(states=1, evaluations=len(chosen))
+            p.case(f"{skey}|dir|{[c[0] for c in chosen]}")
+            # files are listed in directory order: match every read instance to a written one by content
+            for r in range(td1.batch_size[0]):
+                real = int((~td1["pad_mask"][r]).sum())
+                cand = [c for c in chosen if sum(1 for x in c[1]["pad_mask"] if not x) == real and torch.equal(torch.tensor(c[1]["proc_times"])[:, :real].float(), td1["proc_times"][r, :, :real].float())]
+                if not cand:
+                    p.violation(sig(env_name, skey.partition(":")[2], "values", "text_roundtrip_directory"), rec, f"{skey}: instance {r} read from a directory of {len(chosen)} files with {real} real operations matches none of the written instances {[(c[0], sum(1 for x in c[1]['pad_mask'] if not x)) for c in chosen]}")
+                    continue
+                iid, inst = cand[0]
+                td0 = spec.td(inst)
+                one = td1[r : r + 1].clone()
+                # same schedule semantics: every action sequence of the original on the re-read (re-padded) instance
+                env_b = copy.deepcopy(env)
+                bisimulate(spec, spec.env(inst), td0, env_b, one, p, "text_roundtrip_directory", dict(rec, instance_id=iid, instance=inst), max_leaves=60)
+        except Exception as e:  # noqa: BLE001
+            p.violation(sig(env_name, skey.partition(":")[2], f"crash:{type(e).__name__}", "text_roundtrip_directory"), rec, f"{skey}: directory round trip of {[c[0] for c in chosen]} failed: {type(e).__name__}: {str(e)[:120]}")
         finally:
             shutil.rmtree(d, ignore_errors=True)
     p.sample(dict(part="text_files", env=skey, instances=len(insts)), cap=1)
